@@ -49,6 +49,9 @@ impl Tok {
             Token::Bytes(v) => Tok::B(v.to_boxed_bytes().as_slice().to_vec()),
             Token::String(v) => Tok::S(v.to_boxed_bytes().as_slice().to_vec()),
             Token::Uint8(v) => Tok::U8(v),
+            // a token kind the model does not know (added to the source later): the harness must still build, so that the search for a failing input can run
+            #[allow(unreachable_patterns)]
+            _ => Tok::B(b"<unknown token kind>".to_vec()),
         }
     }
 }
